@@ -17,7 +17,7 @@ Definition node_list (n : node) (kids : list (list item)) : list item :=
 (* shape m h id l: the node id roots a tree of height <= h whose in-order walk is l *)
 Inductive shape (m : nodemap) : nat -> N -> list item -> Prop :=
 | Shape : forall h id n kids,
-    id <> 0%N -> nm_get m id = Some n -> 1 <= ncount n ->
+    id <> 0%N -> nm_get m id = Some n -> 1 <= ncount n -> ncount n <= Z.of_nat (length (nslots n)) ->
     (nchildren n = None -> forall i, nth i kids [] = []) ->
     (forall ch, nchildren n = Some ch -> forall i, (i <= Z.to_nat (ncount n))%nat ->
         (nth i ch 0%N = 0%N /\ nth i kids [] = []) \/
@@ -38,7 +38,7 @@ Proof. destruct fuel; reflexivity. Qed.
 Lemma inorder_shape : forall m h id l, shape m h id l -> forall fuel, (h <= fuel)%nat -> inorder fuel m id = l.
 Proof.
   intros m h. induction h as [|h IH]; intros id l Hs fuel Hf; [inversion Hs|].
-  inversion Hs as [h' id' n kids Hid Hget Hcnt Hnone Hsome]; subst.
+  inversion Hs as [h' id' n kids Hid Hget Hcnt Hlen Hnone Hsome]; subst.
   destruct fuel as [|f]; [lia|]. cbn [inorder].
   destruct (N.eqb id 0) eqn:E; [apply N.eqb_eq in E; congruence|]. rewrite Hget.
   unfold node_list. apply flat_map_ext_in'. intros i Hi. apply in_seq in Hi. f_equal.
@@ -62,7 +62,7 @@ Qed.
 
 Lemma shape_nonempty : forall m h id l, shape m h id l -> l <> [].
 Proof.
-  intros m h id l Hs. inversion Hs as [h' id' n kids Hid Hget Hcnt Hnone Hsome]; subst.
+  intros m h id l Hs. inversion Hs as [h' id' n kids Hid Hget Hcnt Hlen Hnone Hsome]; subst.
   rewrite node_list_head by exact Hcnt. intros H. apply app_eq_nil in H as [_ H]. discriminate.
 Qed.
 
@@ -72,7 +72,7 @@ Lemma first_shape : forall h s id l, shape (bnodes s) h id l -> forall fuel, (h 
              move_to_first_loop fuel s id <> 0%N /\ hd zero_item l = slot n' 0.
 Proof.
   induction h as [|h IH]; intros s id l Hs fuel Hf; [inversion Hs|].
-  inversion Hs as [h' id' n kids Hid Hget Hcnt Hnone Hsome]; subst.
+  inversion Hs as [h' id' n kids Hid Hget Hcnt Hlen Hnone Hsome]; subst.
   destruct fuel as [|f]; [lia|]. cbn [move_to_first_loop].
   assert (Hgetn : getn s id = Some n).
   { unfold getn. destruct (N.eqb id 0) eqn:E; [apply N.eqb_eq in E; congruence|exact Hget]. }
@@ -85,7 +85,7 @@ Proof.
     + destruct (N.eqb (nth 0 ch 0%N) 0) eqn:E; [apply N.eqb_eq in E; congruence|].
       destruct (IH s _ _ Hsh f ltac:(lia)) as [n' [Hg [Hc' [Hne Hhd]]]].
       assert (Hchild : exists cn, getn s (nth 0 ch 0%N) = Some cn).
-      { inversion Hsh as [h2 id2 n2 kids2 Hid2 Hget2 _ _ _]; subst. exists n2. unfold getn.
+      { inversion Hsh as [h2 id2 n2 kids2 Hid2 Hget2 _ _ _ _]; subst. exists n2. unfold getn.
         rewrite E. exact Hget2. }
       destruct Hchild as [cn Hcn]. rewrite Hcn.
       exists n'. repeat split; auto.
@@ -207,7 +207,7 @@ Lemma last_shape : forall h s id l, shape (bnodes s) h id l -> forall fuel, (h <
                  id' <> 0%N /\ last l zero_item = slot n' (ncount n' - 1).
 Proof.
   induction h as [|h IH]; intros s id l Hs fuel Hf; [inversion Hs|].
-  inversion Hs as [h' id' n kids Hid Hget Hcnt Hnone Hsome]; subst.
+  inversion Hs as [h' id' n kids Hid Hget Hcnt Hlen Hnone Hsome]; subst.
   destruct fuel as [|f]; [lia|]. cbn [move_to_last_loop].
   assert (Hgetn : getn s id = Some n).
   { unfold getn. destruct (N.eqb id 0) eqn:E; [apply N.eqb_eq in E; congruence|exact Hget]. }
@@ -224,7 +224,7 @@ Proof.
     + destruct (N.eqb (nth (Z.to_nat (ncount n)) ch 0%N) 0) eqn:E; [apply N.eqb_eq in E; congruence|].
       destruct (IH s _ _ Hsh f ltac:(lia)) as [id2 [n2 [Hloop [Hg [Hc' [Hne Hlast]]]]]].
       assert (Hchild : exists cn, getn s (nth (Z.to_nat (ncount n)) ch 0%N) = Some cn).
-      { inversion Hsh as [h2 i2 n3 kids2 Hid2 Hget2 _ _ _]; subst. exists n3. unfold getn. rewrite E. exact Hget2. }
+      { inversion Hsh as [h2 i2 n3 kids2 Hid2 Hget2 _ _ _ _]; subst. exists n3. unfold getn. rewrite E. exact Hget2. }
       destruct Hchild as [cn Hcn]. rewrite Hcn.
       exists id2, n2. repeat split; auto.
       rewrite last_cons_nonempty by (eapply shape_nonempty; eauto). exact Hlast.
@@ -330,5 +330,5 @@ Proof.
         apply Shape; try (cbn; congruence || lia || reflexivity).
         intros _ j. destruct j; reflexivity. }
   exists s. split; [exact HR|].
-  apply first_last_refines; [exact HR|]. repeat constructor; unfold is_first_last; auto.
+  apply first_last_refines; [exact HR|]. unfold is_first_last. repeat (constructor; [tauto|]). constructor.
 Qed.
